@@ -128,6 +128,7 @@ pub fn run_corners(rep: &mut Report, runner: &mut Runner, property: &str) {
                 }
                 let idx = runner.run_here(&cfg, &p.cmds, vec![format!("corner|{label}|{mode}")], &format!("corner scenario {label} ({mode}, trailing={trailing})"));
                 rep.count("corner-scenarios");
+                rep.count(&format!("corner:{label}|{mode}|{}", runner.cases[idx].imp.verdict));
                 if mode != "verify" && runner.cases[idx].imp.verdict != "ok" && !p.expect_error {
                     rep.notes.push(format!("corner scenario {label} ({mode}) ends `{}`: only the verdict is compared there", runner.cases[idx].imp.verdict));
                 }
